@@ -8,6 +8,8 @@ def run(ctx):
     if b:
         ctx.correspond(b, "TestVerifC06A", "svdriver_c06", "c06a",
                        env={"VERIF_N": 400 if quick else 20000})
+        ctx.correspond(b, "TestVerifC06B", "svdriver_c06", "c06b",
+                       env={"VERIF_N": 300 if quick else 8000})
     return ctx.finish(
         level="proof",
         rule="histories of regionSet.add over blobs of 7 sizes x 5 chunk grids (chunk-aligned, arbitrary and "
